@@ -301,6 +301,8 @@ class FnSplicer:
             self.segs.insert(pos, '\n    opens_invariants ' + spec['opens_invariants'] + '\n', tag + '/kw', order=order)
         if not has_body:
             return
+        for ctor, rty in (spec.get('eta_expand') or {}).items():
+            self._eta_expand(body_open, body_close, ctor, rty)
         if 'strip-async' in (spec.get('rewrites') or []):
             self._strip_async(start, kwi, body_open, body_close)
         for pname in (spec.get('mut_params') or []):
@@ -424,6 +426,23 @@ class FnSplicer:
         for k in cspecs:
             if int(k) >= len(closures):
                 raise ExtractError('lost anchor: closure #%s of %s (found %d closures)' % (k, tag, len(closures)))
+
+    def _eta_expand(self, body_open, body_close, ctor, rty):
+        """Rule 'eta-expand-ctor': a tuple-variant constructor passed as a function value, `f(Path::Ctor)`,
+        becomes the closure `f(|verif_x| Path::Ctor(verif_x))` with the obvious `ensures` (Verus does not
+        support constructors as function values)."""
+        toks = self.src.toks
+        want = [t for t in re.split(r'(::)', ctor) if t]
+        n = len(want)
+        i = body_open + 1
+        while i < body_close - n:
+            if toks[i].text == '(' and [t.text for t in toks[i + 1:i + 1 + n]] == want and toks[i + 1 + n].text == ')' \
+                    and toks[i - 1].kind == 'ident':
+                a, b = toks[i + 1].start, toks[i + n].end
+                self.segs.rewrite(a, b, '|verif_x| -> (verif_r: %s) ensures verif_r == %s(verif_x) { %s(verif_x) }' % (rty, ctor, ctor), 'eta-expand-ctor')
+                self.counts['eta-expand-ctor'] = self.counts.get('eta-expand-ctor', 0) + 1
+                i += n
+            i += 1
 
     def _strip_async(self, start, kwi, body_open, body_close):
         """Rule 'strip-async': drop the `async` modifier and every `.await` of the body.  Verus has no
@@ -720,7 +739,7 @@ class FnSplicer:
         self.segs.insert(toks[b1].end, ' }', ctag + '/wrap')
 
 
-def _attr_edits(src, segs, start, kwi, counts, drop_all_derives=False):
+def _attr_edits(src, segs, start, kwi, counts, drop_all_derives=False, drop_names=()):
     """Drop attribute macros of crates unavailable in a single-file build."""
     toks = src.toks
     i = start
@@ -748,7 +767,7 @@ def _attr_edits(src, segs, start, kwi, counts, drop_all_derives=False):
                         j += 1
                     if cur:
                         names.append(cur)
-                    keep = [''.join(t.text for t in nm) for nm in names if nm[-1].text not in DROP_DERIVES and not drop_all_derives]
+                    keep = [''.join(t.text for t in nm) for nm in names if nm[-1].text not in DROP_DERIVES and nm[-1].text not in drop_names and not drop_all_derives]
                     if len(keep) != len(names):
                         newt = ('#[derive(' + ', '.join(keep) + ')]') if keep else ''
                         segs.rewrite(toks[i].start, toks[e].end, newt, 'drop-derive')
@@ -806,7 +825,7 @@ class Extractor:
         kind = toks[kwi].text
         name = ' / '.join(path)
         if not keep_attrs:
-            _attr_edits(src, segs, start, kwi, self.counts, bool((spec or {}).get('drop_derives')))
+            _attr_edits(src, segs, start, kwi, self.counts, bool((spec or {}).get('drop_derives')), tuple((spec or {}).get('drop_derive_names') or ()))
         if kind in ('enum', 'struct'):
             _inner_attr_edits(src, segs, kwi, end, self.counts)
         spec = spec or {}
